@@ -13,7 +13,8 @@ CHECKS = {
         "text": "TxFs.tla explodes one mutating operation into the syscall-level steps of its write transaction "
                 "(temp file create/write, pre-commit renames, SQL COMMIT, after-commit removes) for 1-3 filesystem part "
                 "directories, with Crash at every step boundary and Restart. TLC proves VisibleReadable and AllOrNothing "
-                "on the intended design (recovery of *.txbackup files at Start) for every step boundary of every operation "
+                "on the intended design (a recovery pass at Start that moves a *.txbackup file back when its part file is "
+                "missing) for every step boundary of every operation "
                 "kind, generates programs, and every program is replayed on the real storage: a child process is SIGKILLed "
                 "at each hook point of the operation's write transaction, a fresh process observes directories and API "
                 "state, and TLC validates hook order, directory contents and API view against the model of the code and "
@@ -69,6 +70,10 @@ def pick_programs(ctx, stack, programs, rng):
 def run(ctx):
     rng = random.Random(ctx.seed * 7919 + 17)
     devs = ctx.deviations("D-C10")
+    if os.environ.get("VERIF_C10_ASSUME_FIXED"):
+        # testing aid for a repaired tree (VERIF_REPO=<tree with proposed_fixes/D-C10-delete-window.diff applied>):
+        # conformance then runs against the intended design, i.e. with the recovery pass at Start
+        devs = "{}"
     stacks = ctx.pick(["fs", "classes"], ["fs", "classes", "ec21"])
     workers = 4 if ctx.quick() else 8
     # 1. design-level MC: every step boundary of every operation kind, intended design (recovery at Start)
@@ -194,7 +199,8 @@ def run(ctx):
             e["after_gc"] = nz(s["gc_files"])
             e["gc_changed_api_view"] = not s["gc_view_same"]
         rep.setdefault(key, e)
-    ctx.extra["stray_report"] = rep
+    # evidence keeps the crash points that were followed by a GC run (all of them are in the scratch strays-*.ndjson)
+    ctx.extra["stray_report"] = collections.OrderedDict(list((k, v) for k, v in rep.items() if "after_gc" in v)[:300])
     never = sorted(set(k.split("@")[1].split(":")[1] + " " + json.dumps(v["after_gc"], sort_keys=True)
                        for k, v in rep.items() if v.get("after_gc")))
     ctx.extra["strays_surviving_gc"] = never
